@@ -18,7 +18,7 @@ MANIFEST = dict(
         "expansion), and for lambda >= 0 this is equivalent to beta being a global minimiser (linreg_normal_equations_iff_minimiser); the trained model "
         "the normal equations are solvable for every dataset and lambda >= 0 (linreg_system_consistent, rank argument over Mathlib matrices), so the trained model "
         "is optimal given only the semi-definite solver's specification (linreg_train_optimal), and unique for lambda > 0 (linreg_regularised_unique); mean/variance/covariance and the regression system do not "
-        "depend on the batch partition (meanvar_batch_independent, linreg_batch_independent); unit-variance normaliser: output mean 0 / variance 1 on "
+        "depend on the batch partition (meanvar_batch_independent, linreg_batch_independent, normalizers_batch_independent, lda_batch_independent); unit-variance normaliser: output mean 0 / variance 1 on "
         "non-constant columns, constant columns mapped to 0 (unitvariance_output, sqrt specified); unit-interval normaliser: range [0,1] attained, "
         "constant columns to 1/2 for the repaired trainer, and a witness theorem that the pinned source maps a constant column v to 1/2 - v (F-C15-1); "
         "whitening: covariance t*I given the factor specification C*Cov*C^T = I (whitening_output, linear_image_covariance), which ZCA's Q*diag(1/sqrt D)*Q^T "
